@@ -3,14 +3,14 @@ NEXT Next
 CONSTANTS
   Writes <- MCW3
   FailW <- MCNone
-  Readers = {r1}
+  Readers = {}
   Role = "replica"
   Dur = "wait"
   SvcSizes <- MCSvc
   StartSize = 24
   Size <- MCSize
   MaxCrash = 1
-  MaxReads = 1
+  MaxReads = 0
   MaxClose = 0
   AllowDesync = FALSE
   MaxOps = 0
